@@ -14,11 +14,13 @@ PROP = {
             "each placement takes ONE spelling of the kind, drawn at random, and ONE of the six combinations (with / without a path) x "
             "(start line 0, 1, 7), cycling through them (thorough: all six for about one placement in eight); each placement is a `render` case compared with "
             "the model, and the real result is checked against the placement: error and no output (Render and RenderString), LineNumber, Path, "
-            "kind of Cause, message; "
+            "kind of Cause, message - except that for the two kinds that fail INSIDE an included file (file with an error inside, nesting limit) "
+            "the template always has a path and the oracle does not check LineNumber (the line is one of the FILE; it is compared with the model only); "
             "non-trivial = distinct (kind, depth, line, path/start) with an error result",
     "trusted_base": COMMON_TB + ["the placement generator's own bookkeeping of where it put the construct (offset -> line)"],
     "assumptions": ["an error inside an included file carries the line of the failing construct counted from the include tag's line and the "
-                    "path of the INCLUDING template (RenderFile compiles the file with the tag's SourceLoc): C14 include_render_err_located",
+                    "path of the INCLUDING template (RenderFile compiles the file with the tag's SourceLoc): include_render_err_located, "
+                    "include_render_err_at_file_token (Proofs.C14Errors, audited under C14, not under this property)",
                     "line numbers start at the start line the template was parsed with: Engine.ParseTemplate / ParseString / ParseAndRender "
                     "start at line 0 without a path, so an error on the first line of such a template has LineNumber 0"],
 }
@@ -43,7 +45,7 @@ TEXT = {
               '(include_error_line). Determinate form (Proofs.C07First): firstFailure walks the compiled tree in render order with the renderer\'s '
               'state - a node of a sequence is reached only when the one before it returned done; an object, assign or cycle that fails, '
               'a break/continue, the if/elsif/when clause whose test fails, the case tag whose subject fails, the loop tag whose collection '
-              'or modifier fails, the include tag whose argument fails or whose file cannot be read is the site; otherwise the walk goes into '
+              'or modifier fails, the include tag whose argument fails or is no string, whose file cannot be read or that stands at the nesting limit of 100 (the handler\'s error has no location there) is the site; otherwise the walk goes into '
               'the branch taken, the iterations (each in the state the previous one left), the capture body, the included file (the handler\'s '
               'error) - and every enclosing block passes the site through relocate = WrapError on locations, which keeps a site that has a '
               'line or a path (wrap_fin_keeps) and puts a not yet located error at the wrapping tag (wrap_fin_plain); '
@@ -53,16 +55,18 @@ TEXT = {
               'compiles. The walk is proved against the interaction tree in Proofs/RenderTrace.lean (sp_renderNode ... sp_frenderOf). Line 0: '
               'render_error_line_nonzero (include-free tree, no tag or object at line 0, fault-free writer: the error line is not 0 and the '
               'error names the path) and run_error_line_ge_start (source without include tag: the error line is at least the start line); with '
-              'a failing writer line 0 arises exactly for a top-level raw block, left trim marker or the final flush (C20 fault_site_in_tree, '
-              'located_node_fault_sites). Tie: the `errloc` stream places each of its 32 kinds of failing construct at every '
+              'a failing writer (single-fault runs of a template that has a path or has no node at line 0) the error is located at a line of the tree with the path, or at the '
+              'invalid location - line 0, no path -, and the latter only for a write issued by a top-level raw block, a top-level left trim marker or the final flush '
+              '(fault_site_in_tree, located_node_fault_sites in Proofs.C20Located: audited under C20, not under this property). '
+              'Tie: the `errloc` stream places each of its 33 kinds of failing construct at every '
               'nesting depth 0..6, one (path, start line) combination per placement, compares model and real engine (kind, line, path, cause) and '
-              'checks the line against the known position.'),
+              'checks the line against the known position (not for the two kinds that fail inside an included file: there the oracle checks error, path, kind, cause and message, and the line only through the model).'),
     "design_ref": 'DESIGN.md 6 C07',
     "note": NOTE + ('render_error_line_in_tree and run_error_at_tag_or_object are existential (the line of SOME node resp. SOME tag or object token); '
               'the determinate statement is run_fails_at_firstFailure. firstFailure reads the DECISIONS of the walk (which branch is taken, '
               'which items are visited, the state after a node) off the fault-free run of the sub-programs, and the LOCATIONS off the tree; '
-              'for an include node the site is the location of the handler\'s error (what that is: C14 include_render_err_located, '
-              'include_missing_located). That firstFailure is none when the render succeeds is not stated. On line 0 of a template parsed '
+              'for an include node the site is the location of the handler\'s error (what that is, is stated under C14, not here: include_render_err_located in Proofs.C14Errors, '
+              'include_missing_located in Proofs.C14, include_depth_error in Proofs.C14Depth). That firstFailure is none when the render succeeds is not stated. On line 0 of a template parsed '
               'without a path a located error carries no information and is re-located by the enclosing block (WrapError): there the site is '
               'the enclosing block\'s tag, which is what relocate computes and what the real code does (errloc places at start line 0 too). '
               'Line 0 itself is reachable on a fault-free writer: Engine.ParseTemplate, ParseString and ParseAndRender compile at start line 0 '
